@@ -72,7 +72,14 @@ def run_property(pid, tier, seed, cfg):
             unit = getattr(r, 'unit', unit)
             if getattr(r, 'auto_extracted', None):
                 report.setdefault('auto_extracted', []).extend(r.auto_extracted)
+            helpers = set(n + ' (auto-extracted helper)' for n in getattr(r, 'auto_extracted', []) or [])
             for o in r.obligations:
+                # a helper pulled in without a hand-written contract tells its callers nothing about its result: a caller's
+                # obligation that fails in such a run may fail for that reason alone, so it is UNDECIDED, never an alarm
+                # (the helper's own obligations -- no panic, context restored -- still count)
+                if helpers and o['status'] == 'failed' and o['fn'] not in helpers and pid in owning_props(o, unit):
+                    report['undecided'].append(f'unit {uname}: {o["id"]} failed in a run with auto-extracted helper(s) {sorted(helpers)}; the helper has no functional contract, so this is undecided')
+                    continue
                 if pid in owning_props(o, unit):
                     o2 = dict(o)
                     o2['unit'] = uname
